@@ -37,9 +37,14 @@ impl<T: Copy> Delay<T> {
     /// Change the delay.
     pub fn set_delay(&mut self, delay: usize) {
         if delay > self.delay {
-            // More delay: that many more zeroes are owed, on top of whatever
-            // part of the old delay has not been written yet.
-            self.current_delay += delay - self.delay;
+            // More delay. Input samples that were going to be dropped because
+            // of an earlier reduction, but have not been dropped yet, are kept
+            // instead. Beyond that, that many more zeroes are owed, on top of
+            // whatever part of the old delay has not been written yet.
+            let add = delay - self.delay;
+            let unskip = std::cmp::min(self.skip, add);
+            self.skip -= unskip;
+            self.current_delay += add - unskip;
         } else {
             // Less delay: take it out of the zeroes not yet written first,
             // and drop input samples for the rest.
